@@ -776,7 +776,10 @@ Definition tree_content (toks : list ptok) (memo : bool) : option (list citem * 
 Example input_content :
   tree_content input true = Some (tok_content input, tok_content input) /\
   tree_content input false = Some (tok_content input, tok_content input).
-Proof. vm_compute. split; reflexivity. Qed.
+Proof.
+  (* each half is one run of the parser model in the VM; `vm_compute` followed by Qed would run both twice *)
+  split; vm_cast_no_check (@eq_refl (option (list citem * list citem)) (Some (tok_content input, tok_content input))).
+Qed.
 
 (* ... which is this list (73 tokens, 12 of them parentheses, 61 items): *)
 Example input_items : tok_content input =
